@@ -142,6 +142,9 @@ func checkProperty(dir string, P *Program, C *Contracts, id, tier string, verbos
 		timeout = 30
 	}
 	outDir := filepath.Join(dir, "out", id)
+	if o := os.Getenv("VERIF_OUT"); o != "" {
+		outDir = filepath.Join(o, id)
+	}
 	os.RemoveAll(outDir)
 	d := NewDischarger(outDir, timeout, 16)
 	d.Thorough = tier == "thorough"
